@@ -29,6 +29,14 @@ def run_table(tier, seed):
             c = dict(cfg); c["iteration_limit"] = 80; c["params"] = {"collect_path": True}
             sc = G.scalings_of(spec, (0, 1))[(si + ci) % 2]
             out.append({"t": "run", "spec": spec, "cfg": c, "sc": sc})
+    # single precision (iterates and path in float32, step sizes and model times in double), non-dyadic step sizes
+    for si, spec in enumerate(G.core_specs()):
+        for ctl in ("DistanceRatio", "Fixed", "ResiduumRatio"):
+            for linit in (1.0, 3.0):
+                for vi in (True, False):
+                    c = {"control": ctl, "iteration_limit": 40,
+                         "params": {"collect_path": True, "precision": "Single", "lamb_init": linit, "validate_input": vi}}
+                    out.append({"t": "run", "spec": spec, "cfg": c, "sc": G.scalings_of(spec, (0, 1))[si % 2]})
     return out
 
 
